@@ -212,7 +212,7 @@ def pseudo_huber_loss(mod: jnp.array,
     
     with handlers.mask(mask = mask):
         res = (data-mod)/rms
-        loss = factor(f'pseudo_huber_loss{suffix}', -1.*(jnp.sqrt(1 + ( res/delta )**2) - 1) )
+        loss = factor(f'pseudo_huber_loss{suffix}', -1.*delta**2*(jnp.sqrt(1 + ( res/delta )**2) - 1) )
     return loss
 
 def gaussian_mixture(mod: jnp.array,
